@@ -12,6 +12,16 @@ def small_cfg(rng, codec=None):
             return K, R, rng.choice([2, 4, 30, 62, 64, 66, 128, 130])
 
 
+# configurations at the edge of the envelope: most are accepted by one of the two rates only, so a default-rate
+# object that holds the other rate has to switch
+WIDE = [(60000, 3), (3, 60000), (40000, 100), (100, 40000), (32769, 1), (1, 32769), (30000, 30000), (61440, 4096),
+        (4096, 61440), (65535, 1), (1, 65535), (32768, 32768)]
+
+
+def wide_cfg(rng, codec):
+    return rng.choice([kr for kr in WIDE if codec in codecs_for(*kr)])
+
+
 def enc_round(rng, K, sb, seed, probes='-'):
     return ['E.add ' + orig_tok(seed, i, sb) for i in range(K)] + ['E.encode ' + probes]
 
@@ -107,6 +117,8 @@ def check_C05(v, tier, rng):
                 if start == 'new':
                     ops.append('E.new %s %s %d %d %d' % (codec, engine, K, R, sb))
                 elif start == 'reset':
+                    if rng.random() < 0.15:
+                        ops.append('E.reset %d %d 2' % wide_cfg(rng, codec))
                     ops.append('E.reset %d %d %d' % (K, R, sb))
                 elif start == 'parts':
                     ops += ['E.parts', 'E.neww %s %s %d %d %d' % (codec, engine, K, R, sb)]
@@ -126,6 +138,8 @@ def check_C05(v, tier, rng):
                 if start == 'new':
                     ops.append('D.new %s %s %d %d %d' % (codec, engine, K, R, sb))
                 elif start == 'reset':
+                    if rng.random() < 0.15:
+                        ops.append('D.reset %d %d 2' % wide_cfg(rng, codec))
                     ops.append('D.reset %d %d %d' % (K, R, sb))
                 elif start == 'parts':
                     ops += ['D.parts', 'D.neww %s %s %d %d %d' % (codec, engine, K, R, sb)]
@@ -211,7 +225,11 @@ def gen_api_sequences(rng, n, fail_rate):
             maybe_fail(lambda: failing_dec_op(rng, K, R, sb, go, gr, K))
             ops.append('D.decode %s' % ','.join(map(str, [0, K - 1, K] + [rng.choice(BIG)])))
             maybe_fail(lambda: failing_dec_op(rng, K, R, sb, [], [], 0))
-        if rng.random() < 0.3:
+        hop = rng.random() < 0.3
+        if hop:
+            # a valid reset to the edge of the envelope (no round there), then back
+            ops += ['E.reset %d %d 2' % wide_cfg(rng, codec), 'D.reset %d %d 2' % wide_cfg(rng, codec)]
+        if hop or rng.random() < 0.3:
             K2, R2, sb2 = small_cfg(rng, codec)
             ops += ['E.reset %d %d %d' % (K2, R2, sb2)] + enc_round(rng, K2, sb2, seed + 7)
             ops += ['D.reset %d %d %d' % (K2, R2, sb2)]
